@@ -231,7 +231,8 @@ class Optimizer(Logger, Citable):
 
         """
 
-        return [c[2]() if c[4] == 'linear' else math.log10(c[2]())
+        return [c[2]() if self._fit_priors[c[0]].priorMode is PriorMode.LINEAR
+                else math.log10(c[2]())
                 for c in self.fitting_parameters]
 
     @property
@@ -248,7 +249,7 @@ class Optimizer(Logger, Citable):
             ( ``bound_min`` , ``bound_max`` )
 
         """
-        return [c[-1] if c[4] == 'linear'
+        return [c[-1] if self._fit_priors[c[0]].priorMode is PriorMode.LINEAR
                 else (math.log10(c[-1][0]), math.log10(c[-1][1]))
                 for c in self.fitting_parameters]
 
